@@ -49,7 +49,8 @@ fn file_op(g: &mut NsGen, rng: &mut SplitMix64) -> bool {
 
 fn random_history(id: String, seed: u64, cat: &Catalogue, rng: &mut SplitMix64, sink: &mut Sink) {
     let vol = if rng.chance(4, 5) { cat.pick_small_cluster(rng, 8192) } else { cat.pick(rng) };
-    let cfg = Cfg::new(!rng.chance(1, 6), rng.chance(1, 8), ClockMode::Const);
+    let mut cfg = Cfg::new(!rng.chance(1, 6), rng.chance(1, 8), ClockMode::Const);
+    cfg.optorder = optorder_of(&id);
     let mut cx = Ctx::new(id, "dirty", seed, vol, cfg);
     cx.format();
     if rng.chance(2, 3) {
@@ -111,11 +112,98 @@ fn random_history(id: String, seed: u64, cat: &Catalogue, rng: &mut SplitMix64, 
     g.cx.finish(sink);
 }
 
+/// A clean session whose first change of the volume is an IN-PLACE write through a handle whose entry is already
+/// waiting to be written back (a timestamp was set first, or — with access dates on — a read): nothing is allocated,
+/// no directory is touched, so marking the volume dirty is entirely up to `File::write`.
+fn stamp_then_write(id: String, seed: u64, cat: &Catalogue, rng: &mut SplitMix64, sink: &mut Sink) {
+    let vol = cat.pick_small_cluster(rng, 4096);
+    let accdate = rng.chance(1, 3);
+    // a ticking clock, so that a read with access dates on changes the access date
+    let mut cfg = Cfg::new(true, accdate, if accdate { ClockMode::Tick } else { ClockMode::Const });
+    cfg.optorder = optorder_of(&id);
+    let cs = vol.cs as usize;
+    let mut cx = Ctx::new(id, "dirty", seed, vol, cfg);
+    cx.format();
+    cx.auto = Some(Op::Status);
+    cx.mount();
+    let size = 2 * cs + cs / 2;
+    let f = cx.new_f();
+    if cx.step(Op::CreateFile { d: 0, path: b"multi cluster.bin".to_vec(), new: f }).is_ok() {
+        cx.step(Op::WriteAll { f, data: content(rng, size.min(10_000)) });
+        cx.step(Op::DropF(f));
+    }
+    cx.step(Op::Unmount);
+    cx.mount(); // clean
+    let f = cx.new_f();
+    if !cx.dead && cx.step(Op::OpenFile { d: 0, path: b"multi cluster.bin".to_vec(), new: f }).is_ok() {
+        use crate::script::Stamp;
+        let t = Stamp { y: 2001, m: 2, d: 3, h: 4, mi: 5, s: 6, ms: 0 };
+        match rng.below(if accdate { 5 } else { 4 }) {
+            0 => {
+                cx.step(Op::SetModified { f, t });
+            }
+            1 => {
+                cx.step(Op::SetCreated { f, t });
+            }
+            2 => {
+                cx.step(Op::SetAccessed { f, y: 2002, m: 3, d: 4 });
+            }
+            3 => {
+                cx.step(Op::SetCreated { f, t: t.clone() });
+                cx.step(Op::SetModified { f, t });
+            }
+            _ => {
+                // access dates on: the read makes the entry pending
+                cx.step(Op::Read { f, n: 7 });
+            }
+        }
+        // in place: inside the first cluster, across a cluster boundary, or inside the last cluster up to the old end
+        let real = size.min(10_000) as i64;
+        let (pos, len) = match rng.below(4) {
+            0 => (3, 10),
+            1 => (cs as i64 - 5, 10),
+            2 => (real - 20, 20),
+            _ => (cs as i64, cs.min(700) as i64),
+        };
+        cx.step(Op::Seek { f, whence: Whence::Start, n: pos });
+        let data = content(rng, len as usize);
+        if rng.chance(1, 2) {
+            cx.step(Op::Write { f, data });
+        } else {
+            cx.step(Op::WriteAll { f, data });
+        }
+        if rng.chance(1, 2) {
+            // append, still inside the last cluster
+            cx.step(Op::Seek { f, whence: Whence::End, n: 0 });
+            cx.step(Op::WriteAll { f, data: content(rng, 9) });
+        }
+        cx.step(Op::Flush(f));
+        if rng.chance(1, 2) {
+            cx.step(Op::DropF(f));
+        }
+        // power cut, and what the next mount reports
+        cx.step(Op::Forget);
+        if cx.mount().is_ok() {
+            cx.closing_lists();
+            if !cx.dead {
+                cx.step(Op::Unmount);
+            }
+        }
+    }
+    cx.finish(sink);
+}
+
 pub fn run(tier: Tier, seed: u64, rng: &mut SplitMix64, n_override: Option<u64>, sink: &mut Sink) {
     let cat = Catalogue::build();
     let n = tier_count(tier, n_override, 260, 5200);
     for i in 1..=n {
         let mut r = rng.fork();
         random_history(hist_id("dirty", seed, i), seed, &cat, &mut r, sink);
+    }
+    // (appended, so that the numbered histories stay what they were)
+    let extra = if n_override.is_some() { 0 } else { tier.pick(40, 800) };
+    for k in 0..extra {
+        let mut r = rng.fork();
+        stamp_then_write(hist_id("dirty", seed, n + 1 + k), seed, &cat, &mut r, sink);
     }
 }
